@@ -20,6 +20,7 @@ import YtkModel.Merge
 import YtkModel.Codec
 import YtkModel.Builder
 import YtkModel.TplFuncs
+import YtkModel.Heap
 
 namespace Ytk.Fluent
 
@@ -125,5 +126,17 @@ def Doc.toDom? {α : Type} (viaYaml : α → Option (List (String × Val))) (d :
   match any2dom viaYaml d with
   | .ok c => some c
   | _ => none
+
+/-! ## pointer level: a chain of Add calls on an explicit heap (YtkModel/Heap.lean) -/
+
+open Ytk.Heap in
+/-- `h.Add(d1)…Add(dn)` for documents that are dom containers at addresses `ds`: each call is
+    `c.c = c.c.Merge(d)` — `Heap.mergeContainersF .meld` — on the heap the previous call left -/
+def addAllH (f : Nat) : Heap → Addr → List Addr → Option (Heap × Addr)
+  | h, acc, [] => some (h, acc)
+  | h, acc, d :: ds =>
+    match mergeContainersF .meld f h acc d with
+    | some (h', r) => addAllH f h' r ds
+    | none => none
 
 end Ytk.Fluent
